@@ -1,176 +1,14 @@
 ------------------------------ MODULE Conform_Pass ------------------------------
 (***************************************************************************)
-(* Trace validation of the transformation passes (C04, C05, C06, C09, C10): *)
+(* Trace validation of the transformation passes (C04, C05, C06, C09):      *)
 (* each case records one call of a pass on a real circuit:                  *)
 (*   [id, site, inp: Prog (projection of the input circuit), ovr,           *)
-(*    out: [cls, prog (projection of the result)], flags...]                *)
-(* The clauses compare the recorded result with the reference semantics of  *)
-(* JaqalSem.  A clause name is in the verdict iff that clause FAILS.        *)
+(*    out: [cls, prog (projection of the result)], prep, meas]              *)
+(* The clauses (module PassClauses) compare the recorded result with the    *)
+(* reference semantics of JaqalSem.                                         *)
 (***************************************************************************)
-EXTENDS JaqalSem, Json, IOUtils
+EXTENDS PassClauses, Json, IOUtils
 Cases == JsonDeserialize(IOEnv.CASES)
-
-F(name, failed) == IF failed THEN {name} ELSE {}
-
-\* ---------- helpers
-Ok(c) == c.out.cls = "ok"
-RegTabOf(prog, ovr) == RegTab(prog, Env(prog, ovr))
-ValidRegs(prog, ovr) == LET t == RegTabOf(prog, ovr) IN \A r \in DOMAIN t : t[r].ok
-ValidIn(prog, ovr) == ValidRegs(prog, ovr) /\ ~HasBad(Meaning(prog, ovr)) /\ TypeOK(prog, ovr)
-
-MacroMeaning(prog, ovr, j) ==
-  LET env == Env(prog, ovr) IN
-  [v |-> prog.macros[j].v, params |-> prog.macros[j].params,
-   m |-> M(prog.macros[j].body, prog, env, RegTab(prog, env), EmptyFn, FALSE, 0)]
-MacroMeanings(prog, ovr) == { MacroMeaning(prog, ovr, j) : j \in DOMAIN prog.macros }
-
-\* subcircuit expansion on the meaning normal form: U(n, S(kids)) becomes S(prepare, kids, measure)
-\* spliced into an enclosing S (the Seq-in-Seq identification, DESIGN 5/C09)
-GP(name) == [k |-> "G", v |-> name, args |-> <<>>]
-RECURSIVE ExpandU(_, _, _)
-ExpandU(m, p, q) ==
-  CASE m.k = "G" -> m
-    [] m.k = "U" -> LET b == ExpandU(m.c[1], p, q) IN
-                    [k |-> b.k, c |-> <<GP(p)>> \o b.c \o <<GP(q)>>]
-    [] m.k = "L" -> [m EXCEPT !.c = <<ExpandU(m.c[1], p, q)>>]
-    [] m.k \in {"S", "P"} -> [m EXCEPT !.c = Splice(m.k, [j \in DOMAIN m.c |-> ExpandU(m.c[j], p, q)])]
-    [] OTHER -> m
-
-HasSub(prog) == \E j \in DOMAIN AllStmts(prog) : IsSubBlk(AllStmts(prog)[j])
-HasSubInMacro(prog) == \E j \in DOMAIN MacroStmts(prog) : IsSubBlk(MacroStmts(prog)[j])
-HasSubInBody(prog) == \E j \in DOMAIN BodyStmts(prog) : IsSubBlk(BodyStmts(prog)[j])
-HasMacroCall(prog, stmts) == \E j \in DOMAIN stmts : IsMacroCallIn(prog, stmts[j]) \/ (stmts[j].k = "gate" /\ stmts[j].cls = "macro")
-AnyLetRef(prog) ==
-  \/ \E j \in DOMAIN AllStmts(prog) : StmtRefsLet(AllStmts(prog)[j])
-  \/ \E j \in DOMAIN prog.regs : RegRefsLet(prog.regs[j])
-AnyAliasRef(prog) ==
-  LET fn == FundNames(prog)
-      ss == AllStmts(prog)
-  IN \E j \in DOMAIN ss : ss[j].k = "gate" /\ \E a \in DOMAIN ss[j].args : ArgRefsAlias(ss[j].args[a], EmptyFn, fn)
-LetsOf(prog) == SeqToSet(prog.lets)
-RegsOf(prog) == SeqToSet(prog.regs)
-MacroSigs(prog) == { <<prog.macros[j].v, prog.macros[j].params>> : j \in DOMAIN prog.macros }
-
-\* blocks of the same kind directly nested (not legal Jaqal text); loop bodies and macro bodies are
-\* blocks by construction and are not "nested" in this sense
-RECURSIVE IllegalNest(_, _)
-IllegalNest(s, ctx) ==
-  CASE s.k = "gate" -> FALSE
-    [] s.k = "loop" -> ctx = "par" \/ \E j \in DOMAIN s.body.body : IllegalNest(s.body.body[j], IF s.body.par THEN "par" ELSE "seq")
-    [] s.k = "blk" ->
-         LET kind == IF s.par THEN "par" ELSE "seq" IN
-         \/ (ctx = kind /\ ~s.sub)
-         \/ (s.sub /\ ctx = "par")
-         \/ \E j \in DOMAIN s.body : IllegalNest(s.body[j], kind)
-    [] OTHER -> TRUE
-LegalNesting(prog) ==
-  /\ \A j \in DOMAIN prog.body : ~IllegalNest(prog.body[j], "top")
-  /\ \A j \in DOMAIN prog.macros : \A x \in DOMAIN prog.macros[j].body.body :
-        ~IllegalNest(prog.macros[j].body.body[x], IF prog.macros[j].body.par THEN "par" ELSE "seq")
-
-\* ---------- clauses per site
-\* fill_in_map is applicable unless a macro body indexes an alias with a parameter: that reference denotes
-\* no single fundamental qubit before the macro is expanded (R5: the statement is silent there)
-MapApplicable(prog) ==
-  LET fn == FundNames(prog)
-      ss == MacroStmts(prog)
-  IN ~\E j \in DOMAIN ss : ss[j].k = "gate" /\ \E a \in DOMAIN ss[j].args :
-        LET x == ss[j].args[a] IN x.k = "qubit" /\ x.base.k = "reg" /\ x.base.v \notin fn /\ x.idx.k = "param"
-
-Common(c) ==
-  F("error_type", c.out.cls \notin {"ok", "jaqal_error"})
-  \cup F("accepted", ValidIn(c.inp, c.ovr) /\ c.out.cls # "ok" /\ (c.site = "fill_in_map" => MapApplicable(c.inp)))
-
-ExpandMacros(c, preserve) ==
-  LET i == c.inp  o == c.out.prog
-      mm == MeaningModSub(o, <<>>) = MeaningModSub(i, <<>>)
-  IN Common(c) \cup
-     IF ~Ok(c) THEN {}
-     ELSE F("no_macro_calls", HasMacroCall(i, BodyStmts(o)))
-          \cup F("meaning_mod_sub", ~mm)
-          \cup F("sub_annotations", mm /\ Meaning(o, <<>>) # Meaning(i, <<>>))
-          \cup F("header_carried", LetsOf(o) # LetsOf(i) \/ RegsOf(o) # RegsOf(i) \/ NativeSet(o) # NativeSet(i))
-          \cup F("imports_carried", SeqToSet(o.imports) # SeqToSet(i.imports))
-          \cup F("definitions", IF preserve THEN MacroSet(o) # MacroSet(i) ELSE o.macros # <<>>)
-          \cup F("legal_nesting", LegalNesting(i) /\ ~LegalNesting(o))
-
-FillInLet(c) ==
-  LET i == c.inp  o == c.out.prog
-      mm == MeaningModSub(o, <<>>) = MeaningModSub(i, c.ovr)
-  IN Common(c)
-     \cup F("invalid_rejected", ~ValidIn(i, c.ovr) /\ Ok(c))
-     \cup IF ~Ok(c) THEN {}
-     ELSE F("no_let_refs", AnyLetRef(o))
-          \* the meaning clauses are asserted for valid (program, override) pairs only; what must happen
-          \* to the others is C14's invalid_rejected
-          \cup F("meaning_mod_sub", ValidIn(i, c.ovr) /\ ~mm)
-          \cup F("sub_annotations", ValidIn(i, c.ovr) /\ mm /\ Meaning(o, <<>>) # Meaning(i, c.ovr))
-          \cup F("registers", ValidIn(i, c.ovr) /\ RegTabOf(o, <<>>) # RegTabOf(i, c.ovr))
-          \cup F("macros_kept", ValidIn(i, c.ovr) /\ MacroMeanings(o, <<>>) # MacroMeanings(i, c.ovr))
-          \cup F("lets_kept", LetsOf(o) # LetsOf(i))
-          \cup F("natives_kept", NativeSet(o) # NativeSet(i))
-          \cup F("imports_carried", SeqToSet(o.imports) # SeqToSet(i.imports))
-          \cup F("legal_nesting", LegalNesting(i) /\ ~LegalNesting(o))
-
-FillInMap(c) ==
-  LET i == c.inp  o == c.out.prog
-      mm == MeaningModSub(o, <<>>) = MeaningModSub(i, <<>>)
-  IN Common(c) \cup
-     IF ~Ok(c) THEN {}
-     ELSE F("no_alias_refs", AnyAliasRef(o))
-          \cup F("meaning_mod_sub", ~mm)
-          \cup F("sub_annotations", mm /\ Meaning(o, <<>>) # Meaning(i, <<>>))
-          \cup F("header_carried", LetsOf(o) # LetsOf(i) \/ RegsOf(o) # RegsOf(i) \/ NativeSet(o) # NativeSet(i))
-          \cup F("macros_kept", MacroMeanings(o, <<>>) # MacroMeanings(i, <<>>))
-          \cup F("imports_carried", SeqToSet(o.imports) # SeqToSet(i.imports))
-          \cup F("legal_nesting", LegalNesting(i) /\ ~LegalNesting(o))
-
-ExpandSub(c) ==
-  LET i == c.inp  o == c.out.prog IN
-  Common(c) \cup
-     IF ~Ok(c) THEN {}
-     ELSE F("no_sub_left", HasSub(o))
-          \cup F("brackets", Meaning([o EXCEPT !.macros = <<>>], <<>>) #
-                             ExpandU(Meaning([i EXCEPT !.macros = <<>>], <<>>), c.prep, c.meas))
-          \cup F("header_carried", LetsOf(o) # LetsOf(i) \/ RegsOf(o) # RegsOf(i) \/ NativeSet(o) # NativeSet(i))
-          \cup F("macros_kept", MacroSigs(o) # MacroSigs(i))
-          \cup F("macro_brackets", MacroSigs(o) = MacroSigs(i) /\
-                  \E j \in DOMAIN i.macros :
-                     LET env == Env(i, <<>>)
-                         pi == [i EXCEPT !.macros = <<>>]
-                         po == [o EXCEPT !.macros = <<>>]
-                         k == CHOOSE x \in DOMAIN o.macros : o.macros[x].v = i.macros[j].v
-                     IN M(o.macros[k].body, po, env, RegTab(po, env), EmptyFn, FALSE, 0) #
-                        ExpandU(M(i.macros[j].body, pi, env, RegTab(pi, env), EmptyFn, FALSE, 0), c.prep, c.meas))
-          \cup F("imports_carried", SeqToSet(o.imports) # SeqToSet(i.imports))
-
-\* the parser itself: inp is the MODEL program (built by the AstEnum machine), out the parsed circuit
-Parse(c) ==
-  LET i == c.inp  o == c.out.prog IN
-  Common(c) \cup
-     IF ~Ok(c) THEN {}
-     ELSE F("denotes", Meaning(o, <<>>) # Meaning(i, <<>>))
-          \cup F("registers", RegTabOf(o, <<>>) # RegTabOf(i, <<>>))
-          \cup F("lets", Env(o, <<>>) # Env(i, <<>>))
-          \cup F("macros", MacroMeanings(o, <<>>) # MacroMeanings(i, <<>>))
-          \cup F("imports", SeqToSet(o.imports) # SeqToSet(i.imports))
-          \cup F("natives", NativeSet(o) # NativeSet(i))
-
-Clauses(c) ==
-  CASE c.site = "parse" -> Parse(c)
-    [] c.site = "expand_macros" -> ExpandMacros(c, FALSE)
-    [] c.site = "expand_macros_preserve" -> ExpandMacros(c, TRUE)
-    [] c.site = "fill_in_let" -> FillInLet(c)
-    [] c.site = "fill_in_map" -> FillInMap(c)
-    [] c.site = "expand_subcircuits" -> ExpandSub(c)
-    [] OTHER -> {"unknown_site"}
-
-Triggers(c) ==
-  F("HasSubcircuitBlock", HasSub(c.inp))
-  \cup F("SubcircuitInMacro", HasSubInMacro(c.inp))
-  \cup F("HasImports", c.inp.imports # <<>>)
-  \cup F("HasOverride", c.ovr # <<>>)
-  \cup F("HasMacros", c.inp.macros # <<>>)
 
 VARIABLE i
 Init == i = 1
